@@ -294,6 +294,9 @@ func checkTAExclusive(e *executor, r *stepResult) *vfkit.Violation {
 		} else if had[c.ID] {
 			had[c.ID] = false
 			lost[c.ID] = r.lostBy(c.ID)
+		} else if r.Op.Kind == "phase" && lost[c.ID] == "" {
+			// created and stripped of its grant within one concurrent phase
+			lost[c.ID] = r.lostBy(c.ID)
 		}
 	}
 	// with pinCPU off the plugin pins nothing: cpusets the runtime still holds
